@@ -13,6 +13,7 @@ def conditions(tier):
             dict(module=H, func="_jvpapi3", cases=4 * 7 * 2, what="forward-mode APIs: defjvp callables / 'same' / None, defjvp_argnum, def_linear", timeout=T),
             dict(module=H, func="_linear_container3", cases=3 * 7 * 2, what="tuple- / list-valued primitive registered with def_linear / 'same' / defjvp_argnum, several arguments differentiated at once: leaf-wise sum in the output's vector space", timeout=T),
             dict(module=H, func="_same_argnums3", cases=7 * 7, what="defjvp(p, 'same', ..., argnums=subset): the shorthand substitutes the tangent at the ARGUMENT number it is registered for, unregistered positions raise", timeout=T),
+            dict(module=H, func="_kw_levels", cases=8, what="positional argument traced by the inner of two nested traces, KEYWORD argument by the outer one (both modes at both levels): the keyword value reaches raw function and rule unchanged, its dependence survives", timeout=T),
             dict(module=H, func="_levels", cases=8, what="arguments assigned to the inner or the outer of two nested traces, both modes, symbolic trace counter"),
             dict(module=H, func="_missing1", cases=6, what="missing rule raises, arity 1"),
             dict(module=H, func="_missing2", cases=3 * 4 * 3 * 2, what="missing rule raises / None gives zero, arity 2", timeout=T),
